@@ -24,6 +24,7 @@ def dispatch (op : String) (args : Json) : Option Json :=
   | "c06.validate" => some (c06validate args)
   | "c08.validate" => some (c08validate args)
   | "c08.legacy" => some (c08legacy args)
+  | "c08.skip" => some (c08skip args)
   | "c02.render" => some (c02render args)
   | "c11.accept" => some (c11accept args)
   | "c12.run" => some (c12run args)
